@@ -79,6 +79,17 @@ var c19Files = map[string]string{
 		"{{ [1]|json_encode }}{{ {'k': 1}|keys|join }}{{ [1]|last }}{{ 'abc'|length }}{{ 'AB'|lower }}{{ [1]|merge([2])|length }}{{ 'a\nb'|nl2br }}{{ 1234.5|number_format }}{{ '<b>'|raw }}" +
 		"{{ 'ab'|replace({'a': 'b'}) }}{{ 'ab'|reverse }}{{ 2.5|round }}{{ 'abc'|slice(1, 1) }}{{ [2, 1]|sort|join }}{{ 'a b'|split(' ')|length }}{{ '<b>x</b>'|striptags }}{{ 'a b'|title }}{{ ' a '|trim }}" +
 		"{{ 'ab'|upper }}{{ 'a b'|url_encode }}{{ 'x'|convert_encoding('UTF-8', 'ISO-8859-1') }}{{ '<'|escape }}{{ '<'|escape('js') }}",
+	// several use tags in one child: all fine, the first / the middle one failing (missing, malformed, an alias for a
+	// block that is not there), the last failing
+	"blocksA.twig":    "{% block b %}A{% endblock %}",
+	"blocksB.twig":    "{% block c %}B{% endblock %}",
+	"use3ok.twig":     "{% extends 'base.twig' %}{% use 'blocksA.twig' %}{% use 'blocksB.twig' %}{% use 'blocksA.twig' with b as b2 %}",
+	"use3first.twig":  "{% extends 'base.twig' %}{% use 'nofile.twig' %}{% use 'blocksA.twig' %}{% use 'blocksB.twig' %}",
+	"use3middle.twig": "{% extends 'base.twig' %}{% use 'blocksA.twig' %}{% use 'syntax.twig' %}{% use 'blocksB.twig' %}",
+	"use3alias.twig":  "{% extends 'base.twig' %}{% use 'blocksA.twig' with nosuch as x %}{% use 'blocksB.twig' %}{% use 'blocksA.twig' %}",
+	"use3last.twig":   "{% extends 'base.twig' %}{% use 'blocksA.twig' %}{% use 'blocksB.twig' %}{% use 'nofile.twig' %}",
+	"inc3first.twig":  "a{% include 'nofile.twig' %}{% include 'valid.twig' %}{% include 'base.twig' %}",
+	"imp3first.twig":  "{% import 'nofile.twig' as a %}{% import 'macros.twig' as b %}{% from 'macros.twig' import m %}",
 	// reached through symbolic links (created by the setup below)
 	"inclink.twig": "a{% include 'link.twig' %}{% include 'linkbad.twig' %}b",
 }
